@@ -52,6 +52,106 @@ def explain(ctx, runs, tag):
     return explained, len(index)
 
 
+
+# ---- the same schedule in the small-step Lean model (Model/Conc) --------------------------------------------
+
+SS_LABEL = {"uget.afterLookup": "uget.afterLookup", "ukeys.afterLookup": "ukeys.afterLookup", "gc.horizon": "gc.horizon",
+            "gc.collected": "gc.collected", "begin.start": "begin.start", "txrepo.store": "txrepo.store", "utx.start": "utx.start"}
+SS_STAY = {"utx.betweenAB", "utx.seqB"}          # inside the commit's critical section: one step of the model
+SS_ENTRY = {"begin.start", "utx.start"}          # labels of entry program counters: reached by the call itself
+
+
+def smallstep_cmds(run):
+    """driver commands + expected answers replaying one enforced run; None if the run is outside the
+    model's reach (an actor was blocked on a lock of the real code, or a persistent-mutation yield point)"""
+    tr = run["trace"]
+    if run.get("hang") or any(t.startswith("blocked") for t in tr):
+        return None
+    actors = []
+    for t in tr:
+        f = t.split()
+        if f[0] in ("step", "inv", "ret", "done") and f[1] not in actors:
+            actors.append(f[1])
+    tid = {a: i + 1 for i, a in enumerate(actors)}
+    cmds, exp = ["conc new"], ["ok"]
+    for op, res in zip(run["setup"], run["setup_res"]):
+        cmds += ["conc call 0 " + op, "conc until 0 ret"]
+        exp += ["ok", "ret:" + res]
+    n = len(tr)
+    i = 0
+    while i < n:
+        f = tr[i].split()
+        if f[0] != "step":
+            i += 1
+            continue
+        a = f[1]
+        # the segment of `a`: its inv/ret lines up to its next park / end
+        j = i + 1
+        called = False
+        while j < n and not tr[j].startswith(("step ", "done ", "blocked ")):
+            g = tr[j].split(None, 2)
+            if g[1] != a:
+                return None
+            if g[0] == "inv":
+                cmds.append("conc call %d %s" % (tid[a], g[2])); exp.append("ok"); called = True
+            elif g[0] == "ret":
+                cmds.append("conc until %d ret" % tid[a]); exp.append("ret:" + g[2]); called = False
+            j += 1
+        # where does `a` park next?
+        q = None
+        for k in range(j, n):
+            h = tr[k].split()
+            if h[0] == "step" and h[1] == a:
+                q = h[3]
+                break
+            if h[0] == "done" and h[1] == a:
+                break
+        if q and not q.startswith("op:"):
+            if q.startswith("mut:"):
+                return None
+            if q in SS_STAY or (q in SS_ENTRY and called):
+                cmds.append("conc at %d" % tid[a]); exp.append("utx.start" if q in SS_STAY else SS_LABEL[q])
+            elif q in SS_LABEL:
+                cmds.append("conc until %d %s" % (tid[a], SS_LABEL[q])); exp.append("at:" + SS_LABEL[q])
+            else:
+                return None
+        i = j
+    for op, res in zip(run["final"], run["final_res"]):
+        cmds += ["conc call 0 " + op, "conc until 0 ret"]
+        exp += ["ok", "ret:" + res]
+    return cmds, exp
+
+
+def smallstep(ctx, runs, tag):
+    """returns (number of runs replayed, list of (run index, command, expected, model's answer))"""
+    ops_p = os.path.join(ctx.rd, tag + ".ss.ops")
+    index = []
+    with open(ops_p, "w") as f:
+        line = 0
+        for ri, r in enumerate(runs):
+            ce = smallstep_cmds(r)
+            if ce is None:
+                continue
+            cmds, exp = ce
+            f.write("\n".join(cmds) + "\n")
+            index.append((ri, line, cmds, exp))
+            line += len(cmds)
+    out_p = os.path.join(ctx.rd, tag + ".ss.out")
+    with open(ops_p, "rb") as fi, open(out_p, "wb") as fo:
+        p = subprocess.run([C.DRIVER], stdin=fi, stdout=fo, stderr=subprocess.PIPE)
+        if p.returncode != 0:
+            raise C.MachineryError("driver crashed (conc)")
+    got = C.read_lines(out_p)
+    bad = []
+    for ri, start, cmds, exp in index:
+        for k, (c, e) in enumerate(zip(cmds, exp)):
+            g = got[start + k] if start + k < len(got) else "<eof>"
+            if g != e:
+                bad.append((ri, c, e, g))
+                break
+    return len(index), bad
+
+
 def keys_subset(impl, spec):
     """known finding C06-getkeys-reclaim-window: GetKeys may omit keys (never invent one)"""
     if not (impl.startswith("keys:") and spec.startswith("keys:")):
